@@ -10,6 +10,13 @@ A tree is a JSON-able nested list:
                                                 units of one quantity type, zero exponents, ...)
   [op, t1, t2]  op in * / // + -                the real operator applied to the two sub-results
   ["^", t, n]                                   t ** n
+
+Array leg (both properties say "Scalars or Arrays"): a share of the operand pairs is ALSO evaluated with Arrays
+(float64 ndarray, list or tuple container, 2-3 elements; element i of every leaf = leaf value * mult[i]) and the
+operand OBJECTS are reused for the follow-up expressions the properties name (a+b, b+a, (a+b)-b; a*b, b*a, a*b
+again, (a*b)/b).  Every element of every step is one correspondence case: the model (scalar level) gets the
+operands' quantities and the element's value as it was when the operand was built (results: right after they
+were computed), so an operation that edits an operand's container in place shows up in the next step.
 """
 import math
 from collections import OrderedDict
@@ -112,7 +119,13 @@ def model_line(c):
 
 def show(c):
     t = c["_t"]
-    return dict(op=t["k"], a=render(t["a"]), b=render(t["b"]) if t["b"] is not None else None, n=t["n"])
+    d = dict(op=t["k"], a=render(t["a"]), b=render(t["b"]) if t["b"] is not None else None, n=t["n"])
+    if t.get("arr"):
+        ar = t["arr"]
+        d["array"] = dict(container=ar["kind"], element_multipliers=ar["mult"], step=ar["name"], element=ar["i"],
+                          note="every leaf Scalar(v, ..) stands for Array(container(v * m for m in multipliers), ..); "
+                               "steps run in order on the same operand objects")
+    return d
 
 
 def render(t):
@@ -133,6 +146,8 @@ def render(t):
 
 def impl(c, ctx):
     t = c["_t"]
+    if t.get("arr"):
+        return impl_array(c, ctx)
     try:
         a = build(t["a"])
         b = build(t["b"]) if t["b"] is not None else None
@@ -201,6 +216,157 @@ def nontrivial(c, io):
 
 def case_key(c):
     return model_line(c)
+
+
+# ------------------------------------------------------------------------------------------ the Array leg
+ARR_KINDS = ("ndarray", "ndarray", "list", "tuple")
+ARR_MULT = (1.0, 1.5, -0.75, 2.0, -3.0, 0.25, 10.0)
+# (name, operator, left, right); "r0" = the object returned by step 0
+STEPS = {
+    "add": [("a+b", "+", "a", "b"), ("b+a", "+", "b", "a"), ("(a+b)-b", "-", "r0", "b"), ("a-b", "-", "a", "b")],
+    "mul": [("a*b", "*", "a", "b"), ("b*a", "*", "b", "a"), ("a*b again", "*", "a", "b"), ("(a*b)/b", "/", "r0", "b"),
+            ("a/b", "/", "a", "b"), ("a//b", "//", "a", "b")],
+}
+
+
+def elem_tree(t, m):
+    """the Scalar tree of one array element: every leaf value multiplied by m"""
+    k = t[0]
+    if k in ("L", "C", "E", "R"):
+        return [k, float(fval(t[1]) * m).hex()] + list(t[2:])
+    if k == "^":
+        return ["^", elem_tree(t[1], m), t[2]]
+    return [k, elem_tree(t[1], m), elem_tree(t[2], m)]
+
+
+def _container(vals, kind):
+    if kind == "ndarray":
+        import numpy
+
+        return numpy.array(vals, dtype=float)
+    return list(vals) if kind == "list" else tuple(vals)
+
+
+def build_array(t, mult, kind):
+    """Evaluate a tree with Arrays (raises whatever the real code raises)."""
+    from barril.units import Array, ObtainQuantity
+
+    k = t[0]
+    if k in ("L", "C", "E", "R"):
+        vals = _container([float(fval(t[1]) * m) for m in mult], kind)
+        if k == "L":
+            return Array(vals, t[2], t[3])
+        if k == "C":
+            return Array(ObtainQuantity(t[2], t[3], t[4]), vals)
+        if k == "E":
+            return Array.CreateEmptyArray(vals)
+        return Array.CreateWithQuantity(ObtainQuantity(OrderedDict((c, [u, e]) for c, u, e in t[2])), vals)
+    if k == "^":  # Array has no __pow__: the loop of Scalar.__pow__
+        a = build_array(t[1], mult, kind)
+        r = a
+        for _ in range(t[2] - 1):
+            r = r * a
+        return r
+    return apply_op(k, build_array(t[1], mult, kind), build_array(t[2], mult, kind))
+
+
+def elems(obj):
+    return [float(x) for x in obj.values]
+
+
+def _snap(obj):
+    return dict(q=canon_quantity(obj.GetQuantity()), vals=elems(obj))
+
+
+def run_group(ta, tb, mult, kind, fam):
+    """Build the two Array operands ONCE and run the steps of the family in order on the same objects.
+    None when an operand cannot be built."""
+    import numpy
+
+    with numpy.errstate(all="ignore"):
+        try:
+            objs = dict(a=build_array(ta, mult, kind), b=build_array(tb, mult, kind))
+        except Exception:
+            return None
+        snap = {k: _snap(o) for k, o in objs.items()}  # the operands as they were built
+        if not all(math.isfinite(v) for sn in snap.values() for v in sn["vals"]):
+            return None
+        steps = []
+        for j, (_name, op, l, r) in enumerate(STEPS[fam]):
+            if l not in objs or r not in objs:
+                steps.append(None)  # the step it refers to failed
+                continue
+            try:
+                res = apply_op(op, objs[l], objs[r])
+                out = _snap(res)
+                if not isinstance(res.values, type(objs[l].values)):
+                    steps.append(dict(err="other", detail="container %s became %s" % (type(objs[l].values).__name__,
+                                                                                      type(res.values).__name__)))
+                    continue
+                steps.append(out)
+                objs["r%d" % j] = res
+                snap["r%d" % j] = out  # results: as they were right after the step
+            except Exception as e:
+                steps.append(dict(err=err_kind(e)))
+    return dict(snap=snap, steps=steps)
+
+
+def array_cases(ctx, fam, ta, tb, rng):
+    """the correspondence cases (one per step and element) of one operand pair evaluated with Arrays"""
+    kind = rng.choice(ARR_KINDS)
+    mult = [rng.choice(ARR_MULT) for _ in range(rng.choice((2, 3)))]
+    g = run_group(ta, tb, mult, kind, fam)
+    if g is None:
+        return []
+    cache = ctx.__dict__.setdefault("_arr", {})
+    gid = len(cache)
+    cache[gid] = g
+    out = []
+    for j, (name, op, l, r) in enumerate(STEPS[fam]):
+        if g["steps"][j] is None or l not in g["snap"] or r not in g["snap"]:
+            continue
+        L, R = g["snap"][l], g["snap"][r]
+        for i in range(len(mult)):
+            if not (math.isfinite(L["vals"][i]) and math.isfinite(R["vals"][i])):
+                continue
+            c = dict(op=OPNAME[op], _t=dict(k=op, a=ta, b=tb, n=None,
+                                            arr=dict(gid=gid, kind=kind, mult=mult, fam=fam, step=j, name=name, i=i)))
+            c.update(e1=L["q"]["e"], c1=L["q"]["cap"], v1=qstr(exact(L["vals"][i])),
+                     e2=R["q"]["e"], c2=R["q"]["cap"], v2=qstr(exact(R["vals"][i])))
+            out.append(c)
+    return out
+
+
+def impl_array(c, ctx):
+    t = c["_t"]
+    ar = t["arr"]
+    g = ctx.__dict__.setdefault("_arr", {}).get(ar["gid"])
+    if g is None:
+        g = run_group(t["a"], t["b"], ar["mult"], ar["kind"], ar["fam"])
+        if g is None:
+            return dict(err="other", detail="operands no longer build")
+    res = g["steps"][ar["step"]]
+    if res is None:
+        return dict(err="other", detail="step skipped")
+    if "err" in res:
+        return dict(err=res["err"])
+    v = res["vals"][ar["i"]]
+    if not math.isfinite(v):
+        return dict(nonfinite=True)
+    return dict(ok=res["q"], v=float(v).hex())
+
+
+def arr_sems(t, mult, db):
+    """independent semantics of every element of a tree evaluated with Arrays"""
+    return [sem(elem_tree(t, m), db) for m in mult]
+
+
+def mags_of(arr, db):
+    """base magnitudes of the elements of a real Array result whose units are scale-only"""
+    f = 1.0
+    for c, ue in arr.GetQuantity().GetCategoryToUnitAndExps().items():
+        f = f * slope(db, db.GetCategoryQuantityType(c), ue[0]) ** ue[1]
+    return [float(v) * f for v in arr.values]
 
 
 # ------------------------------------------------------------------------------------------ generators
